@@ -596,6 +596,19 @@ def decode_varint(buffer: bytes, pos: int) -> Tuple[int, int]:
     return value, pos + len(raw)
 
 
+def _equal_or_both_nan(a: Any, b: Any) -> bool:
+    """Equality which treats nan as equal to nan, also inside lists and maps."""
+    if isinstance(a, float) and isinstance(b, float):
+        return a == b or (math.isnan(a) and math.isnan(b))
+    if isinstance(a, list) and isinstance(b, list):
+        return len(a) == len(b) and all(map(_equal_or_both_nan, a, b))
+    if isinstance(a, dict) and isinstance(b, dict):
+        return a.keys() == b.keys() and all(
+            _equal_or_both_nan(value, b[key]) for key, value in a.items()
+        )
+    return a == b
+
+
 @dataclasses.dataclass(frozen=True)
 class ParsedField:
     number: int
@@ -805,12 +818,7 @@ class Message(ABC):
                 # We consider two nan values to be the same for the
                 # purposes of comparing messages (otherwise a message
                 # is not equal to itself)
-                if (
-                    isinstance(self_val, float)
-                    and isinstance(other_val, float)
-                    and math.isnan(self_val)
-                    and math.isnan(other_val)
-                ):
+                if _equal_or_both_nan(self_val, other_val):
                     continue
                 else:
                     return False
